@@ -15,6 +15,9 @@ WX_BAD = [(26, 1, 0), (-11, 1, 0), (15, 9, 0), (15, 1, 4), (26, 9, 4), (15, 1, 9
 # dates put into the generators on purpose: day-of-year 366, year boundaries, leap day
 BOUNDARY_DATES = ["2020-12-31", "2024-12-31", "2021-12-31", "2021-01-01", "2025-01-01", "2024-02-28", "2024-02-29",
                   "2024-03-01", "2023-02-28", "2023-03-01", "2024-12-30", "2022-07-15"]
+# (n_sites, surveys per year, survey minutes): LDAR-Sim's crew estimate for an 8 h day and no travel is
+# ceil(n * surveys * minutes / (365 * 480)) = 1, 1, 2, 3, 4, 7, 13
+PORTFOLIOS = [[5, 1, 60], [20, 4, 120], [60, 12, 420], [200, 6, 400], [200, 12, 300], [400, 12, 240], [1000, 12, 190]]
 # method names: underscores, digits, prefixes of each other, marker / keyword-like
 METHOD_NAMES = ["OGI", "OGI_FU", "OGI_FU_2", "OGI_FU2", "A_1", "a", "kept", "NA", "Logs", "Daily", "site", "day",
                 "M 2", "_placeholder_str_x", "1"]
@@ -215,6 +218,15 @@ def random_day(rng, size="small", cls=None, cost_types=("day", "site", "none")):
         reqs[0] = (sid, budget - 2 * T, 0, False, 0, T, scost, wx if consider_weather else WX_OK[0], 0)
     upfront = rng.choice([0, 0, 100, 2500])
     opts = {}
+    if not stationary and rng.random() < 0.35:
+        # the method is constructed for a portfolio of its own: LDAR-Sim's crew estimate is then
+        # smaller than, equal to or LARGER than the configured crew_count (a genuine crew shortage:
+        # many sites x frequent x long surveys, few crews) -- the configured count must win
+        opts["portfolio"] = rng.choice(PORTFOLIOS)
+        if rng.random() < 0.2:
+            opts["follow_up"] = True
+        if crews == 0 and rng.random() < 0.7:
+            opts["estimate"] = True      # crew_count 0: the documented estimate is what the method gets
     if rng.random() < 0.4:
         opts["date"] = rng.choice(BOUNDARY_DATES)
     if rng.random() < 0.4:
